@@ -5,9 +5,13 @@
    [mismatches] lists the cases on which the model disagrees.
    Hand-out requests carry the byte budget (GetNextBatchRequest.MaxBytes) the harness passed to the real GetNextBatch
    (Model/QueueBudget.v: the model, like the code, does not look at it).  [key_mismatches] (Model/QueueKeys.v) compares
-   the first 18 bytes of real record keys with the model's key strings for the sequence numbers they were projected to. *)
+   the first 18 bytes of real record keys with the model's key strings for the sequence numbers they were projected to.
+   [qc_starts] (Model/QueueStarts.v): the records the REAL store held at every process start of the run (read back from the
+   live store just before the new Sequencer was constructed: key as sequence number, DECODED contents as contents id), compared
+   with the records the model's starting processes find - a record that no longer holds the batch it was written for
+   (a store that keeps the slice it was given, a buffer reused by the writer) shows here even if it is never handed out. *)
 From Coq Require Import NArith List Bool.
-From Verif Require Import Model.Queue Model.QueueBudget.
+From Verif Require Import Model.Queue Model.QueueBudget Model.QueueStarts.
 From Verif Require Export Model.QueueKeys.
 Import ListNotations.
 Open Scope N_scope.
@@ -43,15 +47,17 @@ Record qcase := {
   qc_hist : list bitem;                (* every restart / crash recovery names the bound of the process it starts, every hand-out request its byte budget *)
   qc_outs : list (option out);         (* what the code returned, per item (None for restart / crash) *)
   qc_image : list entry;               (* final records under /batches, in key order: (sequence number of the key, contents id) *)
-  qc_log : list wr                     (* recorded datastore writes, in order (keys as sequence numbers) *)
+  qc_log : list wr;                    (* recorded datastore writes, in order (keys as sequence numbers) *)
+  qc_starts : list (list entry)        (* per restart / crash recovery, in order: the records the live store held when the new process was started, in key order *)
 }.
 
-(* 1 = results differ, 2 = final durable image differs, 3 = write log differs *)
+(* 1 = results differ, 2 = final durable image differs, 3 = write log differs, 4 = the records found by some process start differ *)
 Definition check_case (c : qcase) : list N :=
   let '(st, outs) := b_run (v_st0 (qc_max c)) (qc_hist c) in
   (if list_eqb oout_eqb outs (qc_outs c) then [] else [1]) ++
   (if list_eqb entry_eqb (db (core (vr st))) (qc_image c) then [] else [2]) ++
-  (if list_eqb wr_eqb (b_wlog (qc_max c) (qc_hist c)) (qc_log c) then [] else [3]).
+  (if list_eqb wr_eqb (b_wlog (qc_max c) (qc_hist c)) (qc_log c) then [] else [3]) ++
+  (if list_eqb (list_eqb entry_eqb) (b_start_images (qc_max c) (qc_hist c)) (qc_starts c) then [] else [4]).
 
 Fixpoint mismatches_from (i : N) (cs : list qcase) : list (N * list N) :=
   match cs with
